@@ -14,6 +14,11 @@
                  or in an unexported function (charged to the callers likewise),
     * `global` — only inside `init` (package initialisation, before any operation can run).
   `unknown` origins are never allowed.
+
+  Sites of kind "capture-global" are not writes but ESCAPES: a pointer to a package-level object is stored
+  into (or handed to a function that stores it into) an object that outlives the statement, so that a later
+  legitimate write through that object would modify the constant (e.g. `*p = *q` with q = B8).  They carry
+  the origin `global g` and are therefore allowed only inside `init`, by the same rule.
 -/
 namespace I3.Policy
 
